@@ -9,7 +9,7 @@ SEEDDIR=SEEDED4 /verif/dev/seed_verify.sh /tmp/wt4-$prop $name $prop $demodir "$
 if grep -q "^STORED" $log; then
   wt=/tmp/wt-s4-$prop-$name
   git -C /repo worktree add -q --detach $wt HEAD
-  (cd $wt && git apply /verif/seeded/$prop-$name/patch.diff)
+  if ! (cd $wt && git apply /verif/seeded/$prop-$name/patch.diff); then echo "SWEEP $prop-$name PATCH DOES NOT APPLY TO /repo HEAD" >> $log; git -C /repo worktree remove --force $wt; tail -2 $log; exit 3; fi
   (cd /verif && VERIF_REPO=$wt timeout 3000 ./check $prop quick) > $log.check 2>&1; code=$?
   grep -E "^VIOLATION|^INCONCLUSIVE|^KNOWN" $log.check | cut -c1-220 | head -6 >> $log
   grep -A2 "^VIOLATION" $log.check | grep -v "^VIOLATION\|^--" | paste - - | sed 's/^/CAUGHT-BY: /' | cut -c1-330 >> $log
